@@ -102,6 +102,7 @@ fn bfs(st: &Stats, name: &str, max_depth: Option<u32>, state_cap: usize) {
     let mut depth = 0u32;
     let mut transitions = 0u64;
     let mut closed = false;
+    let mut kept_violations = 0u64;
     loop {
         let n = states.len();
         if frontier_start == n {
@@ -132,6 +133,9 @@ fn bfs(st: &Stats, name: &str, max_depth: Option<u32>, state_cap: usize) {
                         t += 1;
                         let want = model(states[x].mask, states[y].mask, op);
                         for c in judge(&fam, &r, want, op) {
+                            if viol.len() >= 50 {
+                                break;
+                            }
                             let e = json!({"op": op_name(op), "x": expr(&states, x), "y": expr(&states, y)});
                             viol.push(Violation { clause: c.clone(), key: format!("{name}:{}", e), case: json!({"prop": "C11", "kind": "chain", "family": name, "expr": e}) });
                         }
@@ -152,7 +156,12 @@ fn bfs(st: &Stats, name: &str, max_depth: Option<u32>, state_cap: usize) {
         for (news, viol, t) in results {
             transitions += t;
             for v in viol {
-                st.violation(&v.clause, v.key, v.case);
+                // a broken tree produces violations on a large part of all transitions, each carrying its
+                // expression tree: keep the first 2 000 per family (the verdict is settled by the first one)
+                if kept_violations < 2000 {
+                    st.violation(&v.clause, v.key, v.case);
+                }
+                kept_violations += 1;
             }
             for (x, y, op, r, want) in news {
                 let k = key_of(&r);
@@ -161,6 +170,10 @@ fn bfs(st: &Stats, name: &str, max_depth: Option<u32>, state_cap: usize) {
                     states.push(StateRec { mp: r, mask: want, origin: Origin::Op(x, y, op), depth });
                 }
             }
+        }
+        if kept_violations >= 2000 {
+            st.note(&format!("{name}: search stopped at depth {depth} after {kept_violations} violations"));
+            break;
         }
         if states.len() > state_cap {
             st.cap(&format!("{name}: state cap {state_cap} exceeded at depth {depth}"));
